@@ -56,6 +56,13 @@ def edit_content(rng, code):
     """a small edit of an existing text: what typing does (break it, fix it, add or drop a line)"""
     l = stmts(code)
     r = rng.random()
+    swap = {"d1": "d2", "d2": "d1", "u1": "u2", "u2": "u1", "l": "c"}
+    if r < 0.12 and any(x in swap for x in l):
+        # same-length change (the unchanged-content shortcut must still see it)
+        i = rng.choice([k for k, x in enumerate(l) if x in swap])
+        l[i] = swap[l[i]]
+        return unstmts(l)
+    r = rng.random()
     if r < 0.3:
         l.insert(rng.randrange(len(l) + 1), "s")
     elif r < 0.55 and "s" in l:
@@ -181,7 +188,7 @@ SEEDS = [
 
 
 def gen_conformant(rng, tier):
-    n = {"quick": 1500, "thorough": 40000, "search": 1200}[tier]
+    n = {"quick": 2400, "thorough": 40000, "search": 1200}[tier]
     out = list(SEEDS)
     for k in range(n):
         m = rng.random()
@@ -192,8 +199,8 @@ def gen_conformant(rng, tier):
 
 
 def gen_batch(rng, tier):
-    """watched notifications naming several files (outside the proved fragment: exploratory)"""
-    n = {"quick": 300, "thorough": 8000, "search": 200}[tier]
+    """watched notifications naming several files"""
+    n = {"quick": 500, "thorough": 8000, "search": 200}[tier]
     out = ["A a=rbrcl wCb=c+Cc=c;wDb+Dc", "A a=u1u2 wCb=d1+Cc=d2;wMb=c+Dc"]
     for k in range(n):
         init, evs = gen_history(rng, rng.choice([3, 6, 10]), p_outside=0.0, calm=rng.random() < 0.4, batches=True)
@@ -203,7 +210,7 @@ def gen_batch(rng, tier):
 
 def gen_raw(rng, tier):
     """non-conformant stream: raw notifications and silent disk changes mixed in (only impl == model is checked)"""
-    n = {"quick": 500, "thorough": 12000, "search": 400}[tier]
+    n = {"quick": 700, "thorough": 12000, "search": 400}[tier]
     out = []
     for k in range(n):
         init, evs = gen_history(rng, rng.choice([3, 6, 10, 15]), p_outside=0.12, p_raw=rng.choice([0.15, 0.3, 0.6]))
@@ -240,7 +247,7 @@ def nontrivial(case):
 LEGS = [
     Leg("c08.history", gen_conformant, shrink=shrink, nontrivial=nontrivial, per_case_s=5.0),
     Leg("c08.raw", gen_raw, shrink=shrink, nontrivial=nontrivial, per_case_s=5.0),
-    Leg("c08.batch", gen_batch, shrink=shrink, nontrivial=nontrivial, per_case_s=5.0, deciding=False),
+    Leg("c08.batch", gen_batch, shrink=shrink, nontrivial=nontrivial, per_case_s=5.0),
 ]
 
 TRUSTED = vlib.TRUSTED_COMMON + [
